@@ -39,6 +39,7 @@ RULE += (' Also: a keyword of one call as positional (name, value) tuple of anot
 RULE += (' Also: cached functions failing with BaseExceptions that are no Exceptions (aborts, CancelledError): a counted miss that caches nothing.')
 RULE += (' Also: the caller modifies what cache_parameters() handed out; the cache keeps the parameters it was created with.')
 RULE += (" Also: instances that are copies of an instance whose cached method was already looked up; subclasses overriding a cached method with another cached method that awaits super()'s.")
+RULE += (" Also: caches over callable objects stored in a class body bind like functools' caches do.")
 ASSUMPTIONS = ["functools.lru_cache (C implementation of the running 3.12 interpreter) is the reference",
                "cache_discard has no stdlib twin: reference is the cross-validated model"]
 EXHAUSTIVE_SUBSPACES = 'all histories of length <= 4 (thorough: 5) over 7 operations for maxsize 1 and 2'
@@ -162,7 +163,7 @@ def cases(tier, seed, shard, nshards):
             ops = [op + [rng.randrange(2)] if op[0] in ("call", "fail", "discard") else op for op in ops]
             if rng.random() < 0.4:
                 # (no discards in these: functools, which has none, is their reference)
-                variant = rng.choice(["copied", "override"])
+                variant = rng.choice(["copied", "override", "callobj"])
                 ops = [op for op in ops if op[0] != "discard"]
         yield {"maxsize": rng.choice([None, -1, 0, 1, 1, 2, 2, 3, 4, 5, "default"]), "typed": rng.random() < 0.4,
                "form": rng.choice(["paren", "paren", "bare", "empty"]), "kind": kind, "ops": ops,
@@ -294,7 +295,7 @@ def build(case):
                 "m": (lambda inst, a, k: model(*a, **k), model.cache_info, model.cache_clear,
                       lambda inst, a, k: model.cache_discard(*a, **k), None),
                 "backends": (ba, bs, bm)}
-    if kind == "method" and case.get("variant") in ("copied", "override"):
+    if kind == "method" and case.get("variant") in ("copied", "override", "callobj"):
         # "copied": the second instance is a copy.copy() of the first, made after the first one's cached method had
         # been looked up (whatever a look-up may have left in the instance travels with the copy) - it is an object of
         # its own; "override": a subclass overrides the cached method with another cached method that awaits the
@@ -303,7 +304,19 @@ def build(case):
         variant = case["variant"]
 
         def classes(deco, backend, is_async):
-            if is_async:
+            if variant == "callobj":
+                # the cached callable is a callable OBJECT (no ``__get__`` of its own - like a partial, a builtin): the
+                # cache stored in the class body still binds, keys on and passes the instance, like functools' does
+                if is_async:
+                    class Impl:
+                        async def __call__(this, self, *args, **kwargs):
+                            return backend.body((self.tag,) + args, kwargs)
+                else:
+                    class Impl:
+                        def __call__(this, self, *args, **kwargs):
+                            return backend.body((self.tag,) + args, kwargs)
+                base_m = Impl()
+            elif is_async:
                 async def base_m(self, *args, **kwargs):
                     return backend.body((self.tag,) + args, kwargs)
             else:
